@@ -365,6 +365,6 @@ PROP = Property(
     streams=[
         Stream("two_by_one_all_schedules", check_program, enum=enum_two_by_one, quick=1, thorough=1, exhaustive=True),
         Stream("bounded", check_program, strategy=lambda tier: program_case(tier), quick=160, thorough=1200, per_shard_min=5),
-        Stream("budget_moving_clock", check_moving_clock, strategy=lambda tier: moving_clock_case(tier), quick=160, thorough=1500, per_shard_min=5),
+        Stream("budget_moving_clock", check_moving_clock, strategy=lambda tier: moving_clock_case(tier), quick=160, thorough=600, per_shard_min=5),
     ],
 )
